@@ -6,6 +6,8 @@ C11-LOOP   (E-LALR) for every sequence of 5 terminals, whenever Parser.parse ins
            (AST); a model / missing guard is replayed through loads (root-level GRID).
 C11-ROOT   (E-LALR) every pair of block types is accepted as the roots of a partial Mapfile (TYPE END TYPE END), the block types
            symbolic over the grammar's composite_type terminals.
+C11-TIME   (E-LEX) no terminal of the grammar can be driven into exponentially many backtracking paths (bounded model of CPython's
+           matcher over all texts of length 12 / 14); the witness of a violation is stretched and timed on the real `re`.
 C11-INC    (CrossHair) load_includes on INCLUDE lines with symbolic tails (blanks, quotes, '#', letters): only the documented
            ValueError (depth) / IOError (missing file) can escape - never IndexError.
 C11-WRAP   (TSP) grammatical-but-odd inputs that trip assertions / indexing in the tree callbacks (block keyword used as a
@@ -86,7 +88,7 @@ INFO = {
                   "mappyfile.transformer.MapfileTransformer.attr/check_composite_tokens/process_pair_lists/projection/config/composite", "lark.visitors.Transformer._call_userfunc (wraps into VisitError; trusted)"],
     "bounds": {"loop": "all sequences of 4 (quick) / 5 (thorough) terminals over the 88 terminals, 32 / 40 micro-steps", "roots": "19 x 19 block types", "include_tail": "0..3 (quick) / 0..4 (thorough) characters over { space tab \" ' # a o . k / }",
                "wrap": "13 odd-but-grammatical skeletons, 2 symbolic code points"},
-    "outside": ["TIME roughly proportional to input length: not a solver observable (no cost semantics for `re` / the LALR driver in the model); NOT decided",
+    "outside": ["TIME roughly proportional to input length: decided only at the scanner level as absence of exponential regex backtracking (C11-TIME); the LALR driver's and the tree visitors' running time are not solver observables here",
                 "arbitrary long token soups and nesting beyond the skeletons; scanner errors (UnexpectedCharacters) are raised by lark itself (trusted)",
                 "IOError / ValueError from INCLUDE handling are the documented behaviour of C15, not violations of C11"],
     "assumptions": ["lark wraps every Exception raised in a transformer callback into VisitError (a LarkError)"],
@@ -98,6 +100,10 @@ def obligations(tier, seed):
     obs = []
     obs.append(Ob(name="C11-LOOP/stack", kind="z3", z3_call=("engine.lalr", "loop_query", {"n": 4 if tier == "quick" else 5, "steps": 32 if tier == "quick" else 40}), timeout=1800,
                   meta={"desc": "value stack non-empty whenever a token after the first is inspected; first-token guard present", "functions": ["Parser.parse", "LALR table"]}))
+    obs.append(Ob(name="C11-TIME/backtracking", kind="z3", z3_call=("engine.lexmodel", "lx_backtracking", {"L": 12 if tier == "quick" else 14}), timeout=1500,
+                  meta={"desc": "scanner level of the 'promptly' clause: for every terminal, over all texts of length L the number of simultaneous CPython backtracking paths stays <= L*L "
+                                "(an exponential family - nested quantifiers splitting one run in many ways - exceeds it); a witness is stretched and timed on the real `re`",
+                        "functions": ["all terminals of mapfile.lark (to_regexp)"]}))
     obs.append(Ob(name="C11-ROOT/blocks", kind="z3", z3_call=("engine.lalr", "root_query", {}), timeout=900,
                   meta={"desc": "every pair of block types accepted as roots", "functions": ["LALR table"]}))
     for L in (range(0, 4) if tier == "quick" else range(0, 5)):
